@@ -1771,7 +1771,11 @@ std::string Generator::GeneratorImpl::generateCode(const AnalyserEquationAstPtr 
 
         break;
     case AnalyserEquationAst::Type::CI:
-        code = generateVariableNameCode(ast->variable(), ast->parent()->type() != AnalyserEquationAst::Type::DIFF);
+        // Note: a CI node has no parent when it is the root of the AST (e.g. a 'math' element with only a 'ci'
+        //       element as a child).
+
+        code = generateVariableNameCode(ast->variable(),
+                                        (ast->parent() == nullptr) || (ast->parent()->type() != AnalyserEquationAst::Type::DIFF));
 
         break;
     case AnalyserEquationAst::Type::CN:
